@@ -213,6 +213,13 @@ func c14a(c *Ctx) {
 	// CAS
 	repl := f.Calls(specLockRepl)
 	c.requireGate(f.Name+" CAS before release", f, repl, OutNil, okRets, "signatures returned only after Lock.Replace succeeded")
+	// the public copy of the cosigned checkpoint is a release of the cosignature too: it must not be
+	// written before the new checkpoint is recorded in the lock store (seed C14-n2 swapped the two)
+	if pubs := f.CallsW(specUpload); len(pubs) > 0 {
+		c.requireGate(f.Name+" CAS before publication", f, repl, OutNil, pubs, "the cosigned checkpoint is uploaded to the public bucket only after Lock.Replace succeeded (a cosignature that is public before it is recorded can be followed by a different checkpoint of the same size)")
+	} else {
+		c.OK(f.Name+" CAS before publication", "updateCheckpoint uploads nothing itself", nil)
+	}
 	// mutex held at the CAS and at success
 	ls := f.locksets(lockset{})
 	var lObj ast.Expr
